@@ -196,7 +196,8 @@ def download_object(chk, prog, TGET):
         out = {}
         for k in c:
             if len(k) == 2 and k[0][0] == "bin" and k[0][1] == "Eq" and "Response::status" in repr(canon_calls(k[0])):
-                code = "404" if "404_u16" in repr(k[0]) else ("200" if "200_u16" in repr(k[0]) else "?")
+                r_ = repr(k[0])
+                code = "404" if ("404_u16" in r_ or "StatusCode::NOT_FOUND'" in r_) else ("200" if ("200_u16" in r_ or "StatusCode::OK'" in r_) else "?")
                 out[code] = k[1]
         return out
     n_ok = 0
